@@ -77,6 +77,15 @@ def j_rules(P, E):
         if not _any_alias(ik, rk):
             r.violate(("J1", src.nid, "teardown removes a different key"),
                       "the key removed by the observer's teardown is not the key it was inserted under", body=teardown, line=rem[0].line)
+    # the teardown removes the key its observer was REGISTERED under: a value fixed at subscription (captured), never a fresh read
+    # of the counter (which by then names the most recent subscriber)
+    for tb in [teardown] + P.descendants(teardown):
+        ta, _, _ = _acq_field(P, tb, "serial")
+        r.instance(("J1", tb.nid, "teardown key"), True, "counter acquisitions in the teardown: %d" % len(ta))
+        if ta:
+            r.violate(("J1", src.nid, "teardown re-reads the key counter"),
+                      "the observer's teardown reads the key counter when it runs instead of using the key captured at subscription: by "
+                      "then the counter names a later subscriber, whose registration is removed instead", body=tb)
     # the counter advances from itself only (an increment): a value derived from anything else
     # (the size of the map, ..) can repeat while an earlier holder of that key is still registered
     for i in sorted(src.reach):
@@ -783,6 +792,17 @@ def a19b(P, E):
         keep = {m.nid for m in P0.methods_of(OBSERVER) if m.locals[0]["ty"].get("s") == "bool"}
         P0._a19b_view = Program(P0.facts, no_inline=api_paths() | keep)
     P = P0._a19b_view
+    # only the two arbitrated methods may invoke a terminal slot: any other method of Observer that calls fn_error / fn_complete
+    # (a `complete_forced()` for callers that "know" the subscriber is alive) delivers a terminal outside the test-and-set
+    for m in [x for x in P0.orig.values() if x.kind == "assoc" and x.impl_self and norm(ty_adt(x.impl_self) or "") == OBSERVER]:
+        if m.name in ("error", "complete") or m.impl_trait:
+            continue
+        for c in m.calls:
+            if atom(c) == "fw_call" and any(rk == "param" and rd == 1 and path[:1] in (("fn_error",), ("fn_complete",))
+                                            for (rk, rd, path) in m.operand_prov(c.args[0])):
+                r.violate((m.nid, "terminal slot invoked outside error()/complete()"),
+                          "Observer::%s invokes a terminal callback slot itself: that delivery is not arbitrated by the common test-and-set "
+                          "(a racing error()/complete() on another thread delivers a second terminal)" % m.name, body=m, line=c.line)
     for name, slot in (("error", "fn_error"), ("complete", "fn_complete")):
         b = P.body(OBSERVER + "::" + name)
         if b is None:
